@@ -190,6 +190,12 @@ def selfcheck():
         for _, f in single_domain(tier, 0, 200):
             assert mass_ok(f)
             n += 1
+    rng = random.Random(3)
+    for _ in range(300):
+        t = rich_fst(rng, rng.randint(1, 4), "abc", "xy", n_in_eps=2)
+        assert mass_ok(t)
+        assert mass_ok(rand_wfsa(rng, rng.randint(1, 4), "ab", 6))
+        n += 2
     ws = _weights(len(PRIMES))
     assert len(set(ws)) == len(ws) and sum(ws) < 1
     return n
